@@ -96,6 +96,10 @@ Theorem C19_order_stable_filter : forall (m : @omap V) f m1 tr a b va vb, Inv m 
   before a b (abs zero m1).
 Proof. exact (m_order_stable_filter zero). Qed.
 
+Theorem C19_before_strict : forall (m : @omap V) a b, Inv m -> before a b (abs zero m) ->
+  a <> b /\ m_has m a = true /\ m_has m b = true.
+Proof. exact (m_before_strict zero). Qed.
+
 Theorem C19_any_interleaving : forall (threads : list (list (@op V))) h, interleaving threads h ->
   snd (run zero empty h) = snd (s_run zero [] h) /\
   abs zero (fst (run zero empty h)) = fst (s_run zero [] h) /\
@@ -137,5 +141,6 @@ Print Assumptions C19_order_stable_set.
 Print Assumptions C19_order_stable_update.
 Print Assumptions C19_order_stable_delete.
 Print Assumptions C19_order_stable_filter.
+Print Assumptions C19_before_strict.
 Print Assumptions C19_lock_discipline.
 Print Assumptions C19_api_complete.
